@@ -175,7 +175,7 @@ EvReset ==
 
 (* events the protocol model has no action for: judged by the data layer only *)
 EvOther ==
-    /\ E.ev \in {"verify", "hook", "info", "hang", "skip"} \/ (E.ev \in {"sign", "load", "persist"} /\ "k" \notin DOMAIN E)
+    /\ E.ev \in {"verify", "hook", "info", "hang", "skip", "poke"} \/ (E.ev \in {"sign", "load", "persist"} /\ "k" \notin DOMAIN E)
        \/ (E.ev = "sign_mut" /\ ("k" \notin DOMAIN E \/ E.res # "ok"))
     /\ call.pc = "idle"
     /\ LET j == Judge(E, cache) IN cache' = j.c /\ Advance(j.v \o (IF E.ev = "sign" THEN DetVerdict(E) ELSE <<>>))
